@@ -114,6 +114,24 @@ class Streams:
                                 j = dict(base)
                                 j[pname] = v
                                 yield (name, f"{pname}=nested-alt{i}:{mode}", j)
+                # arrays of a union element type, wherever they sit (also as one alternative of an outer
+                # union): every alternative in one array, in both orders, and every ordered pair — a
+                # decision taken on the first element (or on emptiness) must not be applied to the rest
+                for w, o in self.all_union_arrays(pt, lambda v: v, 0):
+                    alts = [self.vg.value(a, "min", depth=3) for a in o["items"] if a["kind"] != "base" or a["name"] != "null"]
+                    arrs = [("hetero-all", alts), ("hetero-rev", list(reversed(alts)))]
+                    if len(alts) <= 4:
+                        arrs += [(f"hetero-{a}-{b}", [alts[a], alts[b]]) for a in range(len(alts)) for b in range(len(alts)) if a != b]
+                    for tag, arr in arrs:
+                        if len(arr) < 2:
+                            continue
+                        v = w(arr)
+                        if pname is None:
+                            yield (name, tag, v)
+                        else:
+                            j = dict(base)
+                            j[pname] = v
+                            yield (name, f"{pname}={tag}", j)
                 # arrays whose elements are the same structure but differ in the alternative taken by
                 # one of its union-typed properties (a probe of the first element cannot decide for all)
                 for w, el in self.all_struct_arrays(pt, lambda v: v, 0):
@@ -153,6 +171,35 @@ class Streams:
             yield from self.all_ors(t["element"], lambda v, w=wrap: w([v]), depth + 1)
         elif k == "map":
             yield from self.all_ors(t["value"], lambda v, w=wrap: w({"file:///k": v}), depth + 1)
+
+    def resolve_or(self, t, depth=0):
+        """the `or` type t is (through aliases), else None"""
+        if depth > 8:
+            return None
+        if t["kind"] == "or":
+            return t
+        if t["kind"] == "reference" and t["name"] in self.m.aliases and t["name"] not in ("LSPAny", "LSPObject", "LSPArray"):
+            return self.resolve_or(self.m.aliases[t["name"]]["type"], depth + 1)
+        return None
+
+    def all_union_arrays(self, t, wrap, depth):
+        """(wrap_of_the_array, element or-type) for every array whose element type is a union, reachable
+        from t through union alternatives, aliases, arrays and map values without entering a structure."""
+        if depth > 6:
+            return
+        k = t["kind"]
+        if k == "or":
+            for alt in t["items"]:
+                yield from self.all_union_arrays(alt, wrap, depth + 1)
+        elif k == "reference" and t["name"] in self.m.aliases and t["name"] not in ("LSPAny", "LSPObject", "LSPArray"):
+            yield from self.all_union_arrays(self.m.aliases[t["name"]]["type"], wrap, depth + 1)
+        elif k == "array":
+            o = self.resolve_or(t["element"])
+            if o is not None:
+                yield (wrap, o)
+            yield from self.all_union_arrays(t["element"], lambda v, w=wrap: w([v]), depth + 1)
+        elif k == "map":
+            yield from self.all_union_arrays(t["value"], lambda v, w=wrap: w({"file:///k": v}), depth + 1)
 
     def all_struct_arrays(self, t, wrap, depth):
         """(wrap, element struct ref) for every array-of-structure reachable from t without entering a structure."""
